@@ -24,8 +24,8 @@ META = {
         "distinct by construction."
     ),
     "exhaustive": {
-        "quick": "all valid histories of length <= 4 over the 15-symbol alphabet",
-        "thorough": "all valid histories of length <= 6 over the 15-symbol alphabet",
+        "quick": "all valid histories of length <= 4 over the 17-symbol alphabet",
+        "thorough": "all valid histories of length <= 6 over the 17-symbol alphabet",
     },
     "assumptions": [
         "option state is process-global and single-threaded (no threads in numpoly)",
@@ -43,13 +43,15 @@ OPTS = {
     "X": {"retain_coefficients": True},
     "Y": {"sort_reverse": True, "retain_names": False, "display_exponent": "^"},
     "E": {},
+    # None is a value like any other (nothing is "left unchanged" because of it)
+    "N": {"force_number_suffix": None, "retain_names": None},
 }
 ALPHABET = [
     "enterA", "enterB", "enterC", "exit", "raiseValueError", "raiseKeyboardInterrupt",
     "setX", "setY", "bad_set", "bad_enter", "mutate", "mutate_defaults", "setA",
     # a block without any option (a pure scope), and a block whose manager object was created
     # before a set_options call and entered afterwards ("previous" = the state at entry)
-    "enterE", "enterPB",
+    "enterE", "enterPB", "setN", "enterN",
 ]
 EXTRA = ["raiseSystemExit", "raiseGeneratorExit", "raiseBaseException"]
 EXC = {
@@ -230,6 +232,18 @@ class Runner:
             self.interpret(history, 0, 0)
         except Abort:
             pass
+        except (KeyboardInterrupt, SystemExit, GeneratorExit):
+            raise
+        except Exception as err:  # pylint: disable=broad-except
+            # an exception nobody in the history raised: the option machinery itself failed
+            # (e.g. while restoring the previous option set)
+            if self.bad is None:
+                self.bad = (len(history), f"unexpected {type(err).__name__}: {err}", {})
+            try:
+                self.numpoly.set_options(**self.defaults)
+            except Exception:  # pylint: disable=broad-except
+                pass
+            return self.bad
         self.check(len(history), "end of history")
         self.check_defaults(len(history))
         return self.bad
